@@ -119,6 +119,8 @@ pub struct Ep {
     acked_known: u64,
     pub sent_accept: bool,
     pub connector: bool,
+    /// the token was supplied by the application (`new_accept_token`), not drawn by the endpoint
+    pub token_from_app: bool,
 }
 
 impl Ep {
@@ -135,6 +137,7 @@ impl Ep {
             acked_known: 0,
             sent_accept: false,
             connector: false,
+            token_from_app: false,
         }
     }
     pub fn kind(&self) -> String {
@@ -322,6 +325,7 @@ impl World {
                     self.pure = false;
                     let mut e = Ep::new();
                     e.conn = c;
+                    e.token_from_app = true;
                     e.hist = std::mem::take(&mut self.eps[i].hist);
                     self.eps[i] = e;
                     Ok(OpRes::Ok)
@@ -568,6 +572,20 @@ impl World {
             self.eps[i].hist.push(Dg { bytes: d, stamp_n, stamp_d, delivered: 0 });
         }
 
+        // ---- C03: a token an endpoint draws for itself / hands out is never a reserved value
+        // (inspected in its state — also after a panic — and in what it put on the wire)
+        if !self.eps[i].token_from_app {
+            let fp_now = self.eps[i].conn.verif_fingerprint();
+            if let Some(t) = reserved_own_token(&fp_now, self.eps[i].connector) {
+                o.fail("C03/reserved-token-handed-out", format!("endpoint {} holds the reserved value {} as the token it generated (state {})", i, t, fp_kind(&fp_now)));
+            }
+            for t in &sent_txt {
+                if let Some(tok) = reserved_wire_token(t, self.eps[i].connector) {
+                    o.fail("C03/reserved-token-handed-out", format!("endpoint {} put the reserved value {} on the wire as its own token: {}", i, tok, t));
+                }
+            }
+        }
+
         let res = match res {
             Err(msg) => {
                 self.eps[i].dead = true;
@@ -782,6 +800,13 @@ impl<'a> Gen<'a> {
         let bytes = self.w.eps[from].hist[n].bytes.clone();
         let d = self.draws();
         let l = format!("{} dl {} {} {} {}", Self::ep(1 - from), n, to_hex(&bytes), Self::parses(&bytes), d);
+        self.line(&l);
+    }
+
+    /// like `deliver`, with the given upcoming results of `secure_random`
+    pub fn deliver_with(&mut self, from: usize, n: usize, draws: &str) {
+        let bytes = self.w.eps[from].hist[n].bytes.clone();
+        let l = format!("{} dl {} {} {} r={}", Self::ep(1 - from), n, to_hex(&bytes), Self::parses(&bytes), draws);
         self.line(&l);
     }
 
